@@ -452,8 +452,19 @@ pub fn delete_bands(
     dry_run: bool,
     break_lock: bool,
 ) -> OpReport<DeleteStats> {
+    delete_bands_rt(Rt::Current, archive, hook, ids, dry_run, break_lock)
+}
+
+pub fn delete_bands_rt(
+    rt: Rt,
+    archive: &Path,
+    hook: &Hook,
+    ids: &[u32],
+    dry_run: bool,
+    break_lock: bool,
+) -> OpReport<DeleteStats> {
     let ids: Vec<BandId> = ids.iter().map(|b| BandId::from(*b)).collect();
-    run_op(move |m| async move {
+    run_op_rt(rt, move |m| async move {
         let a = Archive::open(transport(archive, hook)).await?;
         a.delete_bands(&ids, &DeleteOptions { dry_run, break_lock }, m)
             .await
